@@ -179,6 +179,12 @@ def dispatch (f : String) (j : Json) : Option Json :=
         let some fi := getNat o "fst" | return err "no fst"
         let s' := step s (.touch fi)
         return Json.mkObj [("tree", astJson s'.root), ("store", storeJson s'.σ aids0)]
+      | "touch_kids" =>
+        -- repaired tail of `_put_slice` on Call / ClassDef / MatchClass: touch every direct child
+        let some fi := getNat o "fst" | return err "no fst"
+        let some t := ((s.σ.fst fi).a).bind (fun i => findId i s.root) | return err "fst has no ast in tree"
+        let σ' := touchKids s.σ t.kids
+        return Json.mkObj [("tree", astJson s.root), ("store", storeJson σ' aids0)]
       | "touchall" =>
         let some fi := getNat o "fst" | return err "no fst"
         let p := (getBool o "parents").getD true
